@@ -20,6 +20,16 @@ package store
 //@   trusted atomic load: the current value
 //@   modifies nothing
 //@   ensures value: r == x.v
+//@ func atomic.Int64.Add(x, delta) (r)
+//@   trusted atomic add (sequential view of the cell; applied to the functions of this package only)
+//@   scope package
+//@   modifies x.v
+//@   ensures value: x.v == old(x.v) + delta && r == x.v
+//@ func atomic.Int64.Store(x, val)
+//@   trusted atomic store (sequential view of the cell; applied to the functions of this package only)
+//@   scope package
+//@   modifies x.v
+//@   ensures value: x.v == val
 
 //@ pred segsWF(ds *dataSet): ds != nil && (forall i int :: 0 <= i && i < len(ds.aofSegs) ==> ds.aofSegs[i] != nil)
 //@ pred contiguous(ds *dataSet): forall i int :: 0 < i && i < len(ds.aofSegs) ==> ds.aofSegs[i].left == ds.aofSegs[i - 1].left + ds.aofSegs[i - 1].rtSize.v
@@ -422,3 +432,48 @@ package store
 //@   modifies heap, trimReaderCloses
 //@   set trimReaderCloses = trimReaderCloses + 1 at call closeReaders
 //@   ensures the_readers_of_a_trimmed_segment_are_invalidated: len(ds.aofSegs) < old(len(ds.aofSegs)) ==> trimReaderCloses == old(trimReaderCloses) + 1
+
+// ---- the log writer: segment k+1 is opened where the bytes written into segment k end (C05, C08) ----
+// rotWF: the writer's right end is its segment's left end plus the data bytes in the segment
+// (filesize counts the 16 byte file header too).
+// io.EOF is a non-nil sentinel error
+//@ axiom io_eof_is_an_error: io.EOF != nil
+//@ pred rotWF(w *AofRotater): w != nil && w.filesize >= headerSize && w.right.v == w.left + w.filesize - headerSize
+
+//@ func os.File.Write(self, b) (n, err)
+//@   trusted library contract: a write without an error wrote everything, a failed one a prefix
+//@   modifies nothing
+//@   ensures all_or_prefix: 0 <= n && n <= len(b) && (err == nil ==> n == len(b))
+//@ func os.File.Sync(self) (err)
+//@   trusted library contract
+//@   modifies nothing
+//@ func hash.Hash64.Write(self, p) (n, err)
+//@   trusted frame: the running checksum is the hash's own state
+//@   modifies nothing
+//@ func Observer.Write(self, args)
+//@   trusted frame: index bookkeeping of the store (decided in the data-set contracts)
+//@   modifies nothing
+//@ func AofRotater.getObserver(self) (o)
+//@   trusted frame (atomic load)
+//@   modifies nothing
+//@ func AofRotater.flush(self) (err)
+//@   trusted frame: syncs the file and resets the flush counters (lastFlushTime, dirtyDataSize - the latter is not read by any contract and not listed)
+//@   modifies self.lastFlushTime
+//@ func AofRotater.closeAof(self) (err)
+//@   trusted frame: finishes the segment file (header with size and checksum) and tells the observer; the offsets stay
+//@   modifies self.file, self.header
+
+//@ func AofRotater.openFile(w, offset) (result)
+//@   trusted (its body slices a package-level array, which the generator rejects): creates the segment file and, on success only, points the writer at it
+//@   modifies heap
+//@   ensures a_segment_starts_empty_at_the_offset_asked: result == nil ==> w.left == offset && w.right.v == offset && w.filesize == headerSize
+//@   ensures a_failed_open_leaves_the_offsets: result != nil ==> w.left == old(w.left) && w.right.v == old(w.right.v) && w.filesize == old(w.filesize)
+
+//@ func AofRotater.write
+//@   arith int
+//@   properties C05 C08
+//@   requires wf: rotWF(w) && w.wait != nil
+//@   modifies heap
+//@   ensures the_right_end_is_the_left_end_plus_the_bytes_in_the_segment: rotWF(w)
+//@   ensures every_byte_accepted_moves_the_right_end_by_one: result == nil ==> w.right.v == old(w.right.v) + len(buf)
+//@   assert at call openFile: a_new_segment_is_opened_where_the_bytes_written_end: offset == w.left + w.filesize - headerSize
